@@ -34,7 +34,11 @@ var (
 type script struct {
 	bits []bool
 	pos  int
+	sh   *shaper // presentation (bare / wrapped / inside an error tree) of the errors handed to the code under test
 }
+
+// err presents an error the harness is about to hand to the code under test in the shape the case prescribes.
+func (s *script) err(e error) error { return s.sh.wrap(e) }
 
 func (s *script) next() bool {
 	b := s.pos < len(s.bits) && s.bits[s.pos]
@@ -59,51 +63,53 @@ type faultStore struct {
 
 func (f *faultStore) Get(k kvstore.Key) (kvstore.Value, error) {
 	if f.sc.next() {
-		return nil, errInjected
+		return nil, f.sc.err(errInjected)
 	}
-	return f.KVStore.Get(k)
+	v, err := f.KVStore.Get(k)
+	return v, f.sc.err(err) // ErrKeyNotFound of the store below, in the prescribed shape
 }
 func (f *faultStore) Has(k kvstore.Key) (bool, error) {
 	if f.sc.next() {
-		return false, errInjected
+		return false, f.sc.err(errInjected)
 	}
-	return f.KVStore.Has(k)
+	b, err := f.KVStore.Has(k)
+	return b, f.sc.err(err)
 }
 func (f *faultStore) Set(k kvstore.Key, v kvstore.Value) error {
 	if f.sc.next() {
-		return errInjected
+		return f.sc.err(errInjected)
 	}
-	return f.KVStore.Set(k, v)
+	return f.sc.err(f.KVStore.Set(k, v))
 }
 func (f *faultStore) Delete(k kvstore.Key) error {
 	if f.sc.next() {
-		return errInjected
+		return f.sc.err(errInjected)
 	}
-	return f.KVStore.Delete(k)
+	return f.sc.err(f.KVStore.Delete(k))
 }
 func (f *faultStore) Iterate(p kvstore.KeyPrefix, c kvstore.IteratorKeyValueConsumerFunc, d ...kvstore.IterDirection) error {
 	if f.sc.next() {
-		return errInjected
+		return f.sc.err(errInjected)
 	}
-	return f.KVStore.Iterate(p, c, d...)
+	return f.sc.err(f.KVStore.Iterate(p, c, d...))
 }
 func (f *faultStore) IterateKeys(p kvstore.KeyPrefix, c kvstore.IteratorKeyConsumerFunc, d ...kvstore.IterDirection) error {
 	if f.sc.next() {
-		return errInjected
+		return f.sc.err(errInjected)
 	}
-	return f.KVStore.IterateKeys(p, c, d...)
+	return f.sc.err(f.KVStore.IterateKeys(p, c, d...))
 }
 func (f *faultStore) DeletePrefix(p kvstore.KeyPrefix) error {
 	if f.sc.next() {
-		return errInjected
+		return f.sc.err(errInjected)
 	}
-	return f.KVStore.DeletePrefix(p)
+	return f.sc.err(f.KVStore.DeletePrefix(p))
 }
 func (f *faultStore) Clear() error {
 	if f.sc.next() {
-		return errInjected
+		return f.sc.err(errInjected)
 	}
-	return f.KVStore.Clear()
+	return f.sc.err(f.KVStore.Clear())
 }
 
 // ---------- codecs (mirrored by encV/decV/encK/decK in Corr.v) ----------
@@ -136,39 +142,39 @@ func rawDecK(b []byte) (uint8, bool) {
 func codecs(sc *script) (kvstore.ObjectToBytes[uint8], kvstore.BytesToObject[uint8], kvstore.ObjectToBytes[uint16], kvstore.BytesToObject[uint16]) {
 	ek := func(k uint8) ([]byte, error) {
 		if sc.next() {
-			return nil, errInjected
+			return nil, sc.err(errInjected)
 		}
 		if b, ok := rawEncK(k); ok {
 			return b, nil
 		}
-		return nil, errUnencodable
+		return nil, sc.err(errUnencodable)
 	}
 	dk := func(b []byte) (uint8, int, error) {
 		if sc.next() {
-			return 0, 0, errInjected
+			return 0, 0, sc.err(errInjected)
 		}
 		if k, ok := rawDecK(b); ok {
 			return k, 2, nil
 		}
-		return 0, 0, errMalformed
+		return 0, 0, sc.err(errMalformed)
 	}
 	ev := func(v uint16) ([]byte, error) {
 		if sc.next() {
-			return nil, errInjected
+			return nil, sc.err(errInjected)
 		}
 		if b, ok := rawEncV(v); ok {
 			return b, nil
 		}
-		return nil, errUnencodable
+		return nil, sc.err(errUnencodable)
 	}
 	dv := func(b []byte) (uint16, int, error) {
 		if sc.next() {
-			return 0, 0, errInjected
+			return 0, 0, sc.err(errInjected)
 		}
 		if v, ok := rawDecV(b); ok {
 			return v, 2, nil
 		}
-		return 0, 0, errMalformed
+		return 0, 0, sc.err(errMalformed)
 	}
 	return ek, dk, ev, dv
 }
@@ -214,6 +220,7 @@ type kcase struct {
 	Kind      string     `json:"kind"` // tv ts
 	Tag       string     `json:"tag"`
 	Faults    string     `json:"faults"`               // e.g. "00100"
+	Shapes    []int      `json:"shapes,omitempty"`     // shape of the k-th error handed to the code under test (cyclic; none = bare), see errs.go
 	InitRaw   []int      `json:"init_raw,omitempty"`   // tv: raw bytes under the key
 	InitThere bool       `json:"init_there,omitempty"` // tv: key present initially
 	InitStore [][2][]int `json:"init_store,omitempty"`
@@ -324,6 +331,7 @@ var tvKey = []byte{0xC0, 0x06}
 
 type tvObs struct {
 	cls      string // "" = success
+	errStr   string
 	val      uint16
 	hasVal   bool
 	b        bool
@@ -372,7 +380,8 @@ func runTV(c kcase) (obs []tvObs, why string) {
 	if c.InitThere {
 		_ = inner.Set(tvKey, toBytes(c.InitRaw))
 	}
-	sc := &script{bits: faultBits(c.Faults)}
+	sc := &script{bits: faultBits(c.Faults), sh: &shaper{shapes: c.Shapes}}
+	defer func() { lastShapeUse = sc.sh.used }()
 	_, _, ev, dv := codecs(sc)
 	tv := kvstore.NewTypedValue[uint16](&faultStore{KVStore: inner, sc: sc}, tvKey, ev, dv)
 	fail := func(i int, format string, a ...any) {
@@ -407,9 +416,12 @@ func runTV(c kcase) (obs []tvObs, why string) {
 					x.cbCalled, x.cbCur, x.cbEx = true, cur, ex
 					nv, e := o.apply(cur, ex)
 					wrote, newV = e == nil, nv
-					return nv, e
+					return nv, sc.err(e) // ErrTypedValueNotChanged / the callback's own failure, in the prescribed shape
 				})
 				x.cls, x.val, x.hasVal = class(err), v, err == nil
+				if err != nil {
+					x.errStr = err.Error()
+				}
 			}
 		}()
 		x.raw, x.there = readRaw(inner)
@@ -434,7 +446,7 @@ func runTV(c kcase) (obs []tvObs, why string) {
 		}
 		if x.cls == "EFault" || x.cls == "EOther" {
 			if x.cls == "EOther" {
-				fail(i, "unclassified error")
+				fail(i, "the caller got an error that is none of the errors handed to the code (a compute function's ErrTypedValueNotChanged reported as a failure?): %q", x.errStr)
 			}
 			continue
 		}
@@ -480,7 +492,11 @@ func runTV(c kcase) (obs []tvObs, why string) {
 			if !thereBefore {
 				cur = 0
 			}
-			if !x.cbCalled || x.cbCur != cur || x.cbEx != thereBefore {
+			if !x.cbCalled {
+				fail(i, "Compute did not run the function (class %q: %q) although the raw key is readable (present=%v)", x.cls, x.errStr, thereBefore)
+				break
+			}
+			if x.cbCur != cur || x.cbEx != thereBefore {
 				fail(i, "callback saw (%d,%v) called=%v, the raw key holds (%d,%v)", x.cbCur, x.cbEx, x.cbCalled, cur, thereBefore)
 				break
 			}
@@ -633,7 +649,8 @@ func runTS(c kcase) (obs []tsObs, why string) {
 	for _, e := range c.InitStore {
 		_ = inner.Set(toBytes(e[0]), toBytes(e[1]))
 	}
-	sc := &script{bits: faultBits(c.Faults)}
+	sc := &script{bits: faultBits(c.Faults), sh: &shaper{shapes: c.Shapes}}
+	defer func() { lastShapeUse = sc.sh.used }()
 	ek, dk, ev, dv := codecs(sc)
 	ts := kvstore.NewTypedStore[uint8, uint16](&faultStore{KVStore: inner, sc: sc}, ek, dk, ev, dv)
 	fail := func(i int, format string, a ...any) {
@@ -885,6 +902,7 @@ func genTV(r *vx.Rng, n int) kcase {
 		}
 	}
 	c.Faults = genFaults(r, 4*n)
+	c.Shapes = genShapes(r)
 	return c
 }
 
@@ -931,6 +949,7 @@ func genTS(r *vx.Rng, n int) kcase {
 		calls += 3
 	}
 	c.Faults = genFaults(r, calls)
+	c.Shapes = genShapes(r)
 	return c
 }
 
@@ -949,6 +968,15 @@ func directed() []kcase {
 		{Kind: "tv", Tag: "malformed", InitThere: true, InitRaw: []int{7}, TV: []tvop{{K: "has"}, {K: "get"}, {K: "cmp", F: "incr"}, {K: "set", V: 1}, {K: "get"}}},
 		// Delete failing, then succeeding; Get caches the absence
 		{Kind: "tv", Tag: "delete", InitThere: true, InitRaw: enc(2), Faults: "001", TV: []tvop{{K: "get"}, {K: "del"}, {K: "get"}, {K: "del"}, {K: "get"}, {K: "has"}, {K: "cmp", F: "failex"}, {K: "cmp", F: "failex"}}},
+		// error classification: the sentinel inside an error tree means what the bare sentinel means
+		{Kind: "tv", Tag: "notchanged-in-tree", Shapes: []int{6, 9, 11, 13, 15}, TV: []tvop{{K: "set", V: 7}, {K: "cmp", F: "keep"}, {K: "cmp", F: "initkeep", V: 2}, {K: "cmp", F: "keep"}, {K: "cmp", F: "keep"}, {K: "cmp", F: "keep"}, {K: "get"}}},
+		{Kind: "tv", Tag: "notfound-in-tree-compute", Shapes: []int{11}, TV: []tvop{{K: "cmp", F: "const", V: 1}, {K: "get"}}},
+		{Kind: "tv", Tag: "notfound-in-tree-get", Shapes: []int{7, 10, 12, 14}, TV: []tvop{{K: "get"}, {K: "get"}, {K: "has"}, {K: "cmp", F: "initkeep", V: 3}, {K: "get"}}},
+		{Kind: "tv", Tag: "notfound-then-keep", Shapes: []int{15, 8}, TV: []tvop{{K: "cmp", F: "keep"}, {K: "cmp", F: "keep"}, {K: "set", V: 2}, {K: "del"}, {K: "cmp", F: "initkeep", V: 5}}},
+		// a fault / a failing callback next to errors whose TEXT is that of the sentinels stays a failure
+		{Kind: "tv", Tag: "fault-looks-like-notfound", Faults: "1001", Shapes: []int{17, 18}, TV: []tvop{{K: "cmp", F: "incr"}, {K: "get"}, {K: "cmp", F: "incr"}, {K: "get"}}},
+		{Kind: "tv", Tag: "fail-looks-like-notchanged", InitThere: true, InitRaw: enc(7), Shapes: []int{1, 1, 17, 18, 17}, TV: []tvop{{K: "cmp", F: "fail"}, {K: "cmp", F: "failex"}, {K: "cmp", F: "fail"}, {K: "get"}}},
+		{Kind: "ts", Tag: "get-notfound-in-tree", Shapes: []int{11, 7, 15}, TS: []tsop{{K: "get", Key: 0x10}, {K: "set", Key: 0x10, V: 2}, {K: "get", Key: 0x11}, {K: "get", Key: 0x10}, {K: "del", Key: 0x10}, {K: "get", Key: 0x10}}},
 		{Kind: "ts", Tag: "iterate", TS: []tsop{{K: "set", Key: 0x11, V: 1}, {K: "set", Key: 0x10, V: 2}, {K: "set", Key: 0x01, V: 3}, {K: "iter", Prefix: []int{1}, Limit: 100}, {K: "iter", Prefix: []int{}, Back: true, Limit: 2}, {K: "rawset", RawK: []int{1, 16}, RawV: []int{0, 1}}, {K: "iter", Prefix: []int{1}, Limit: 100}, {K: "iterkeys", Prefix: []int{1}, Back: true, Limit: 100}, {K: "delprefix", Prefix: []int{1}}, {K: "iter", Prefix: []int{}, Limit: 100}}},
 		{Kind: "ts", Tag: "faults", Faults: "0000010000000100001", TS: []tsop{{K: "set", Key: 0x11, V: 1}, {K: "set", Key: 0x10, V: 2}, {K: "get", Key: 0x10}, {K: "get", Key: 0x10}, {K: "iter", Prefix: []int{}, Limit: 100}, {K: "del", Key: 0x10}, {K: "del", Key: 0x10}, {K: "has", Key: 0x10}}},
 	}
@@ -978,7 +1006,7 @@ func emit(cf *vx.CasesFile, st *vx.Stats, c kcase) {
 			}
 		}
 		nontrivial = writes >= 1 && errs >= 1
-		term = fmt.Sprintf("CTV %s %s %s %s", coqOptBytes(toBytes(c.InitRaw), c.InitThere), coqFaults(faultBits(c.Faults)),
+		term = fmt.Sprintf("CTV %s %s %s %s %s", coqOptBytes(toBytes(c.InitRaw), c.InitThere), coqFaults(faultBits(c.Faults)), coqShapes(c.Shapes),
 			vx.ListOf(c.TV, tvop.coq), vx.ListOf(obs, tvObs.coq))
 		if len(st.Samples) < 2 {
 			st.Sample(map[string]any{"case": c, "observed": vx.ListOf(obs, tvObs.coq)}, 4)
@@ -1002,10 +1030,15 @@ func emit(cf *vx.CasesFile, st *vx.Stats, c kcase) {
 			}
 		}
 		nontrivial = sets >= 1 && iters >= 1
-		term = fmt.Sprintf("CTS %s %s %s %s", coqStoreInit(c), coqFaults(faultBits(c.Faults)),
+		term = fmt.Sprintf("CTS %s %s %s %s %s", coqStoreInit(c), coqFaults(faultBits(c.Faults)), coqShapes(c.Shapes),
 			vx.ListOf(c.TS, tsop.coq), vx.ListOf(obs, tsObs.coq))
 		if len(st.Samples) < 4 && c.Tag == "random" {
 			st.Sample(map[string]any{"case": c, "observed": vx.ListOf(obs, tsObs.coq)}, 4)
+		}
+	}
+	for sh, k := range lastShapeUse {
+		for ; k > 0; k-- {
+			st.Count(fmt.Sprintf("err-shape:%02d", sh))
 		}
 	}
 	cf.Add(term)
@@ -1046,11 +1079,13 @@ func coqStoreInit(c kcase) string {
 
 const header = "From Coq Require Import NArith List Bool.\nFrom Verif.C06_Typed Require Import Model StoreModel Corr.\nImport ListNotations.\nOpen Scope N_scope.\n"
 const footer = "Definition M := Eval vm_compute in mismatches cases.\nPrint M.\n"
-const rule = "random histories on a fresh TypedValue[uint16] (Get/Has/Set/Delete/Compute with 6 callbacks; initial raw key absent/valid/undecodable/with trailing bytes) and on a TypedStore[uint8,uint16] (Get/Has/Set/Delete/Iterate/IterateKeys/DeletePrefix/Clear + raw writes of malformed entries; 6 keys, 7 prefixes) over mapdb behind a fault-injecting KVStore and fault-injecting codecs sharing one fault script (density 0, 1/20, 1/7 or 1/3 per history); distinct = distinct (initial store, script, history); non-trivial = TypedValue: at least one successful write and one error other than not-found; TypedStore: at least one successful Set and one iteration that delivered an entry or an error"
+var lastShapeUse []int // shapes handed out in the last history (statistics only)
+
+const rule = "random histories on a fresh TypedValue[uint16] (Get/Has/Set/Delete/Compute with 6 callbacks; initial raw key absent/valid/undecodable/with trailing bytes) and on a TypedStore[uint8,uint16] (Get/Has/Set/Delete/Iterate/IterateKeys/DeletePrefix/Clear + raw writes of malformed entries; 6 keys, 7 prefixes) over mapdb behind a fault-injecting KVStore and fault-injecting codecs sharing one fault script (density 0, 1/20, 1/7 or 1/3 per history); every error handed to the code under test (ErrKeyNotFound of the store below, injected faults, codec failures, ErrTypedValueNotChanged and failures of the compute callbacks) is presented in the shape the case prescribes for it: bare, wrapped once/twice, inside Join/Chain/Wrapf-with-error-argument/double-%w trees (sentinel first, last, nested), next to errors with the text of a sentinel (19 shapes, 30 % of the histories all bare); distinct = distinct (initial store, script, history); non-trivial = TypedValue: at least one successful write and one error other than not-found; TypedStore: at least one successful Set and one iteration that delivered an entry or an error"
 
 func main() {
 	if len(os.Args) < 2 {
-		vx.Die("usage: hx-c06 hist|replay|conc|win ...")
+		vx.Die("usage: hx-c06 hist|replay|conc|win|errs ...")
 	}
 	fs := flag.NewFlagSet(os.Args[1], flag.ExitOnError)
 	n := fs.Int("n", 400, "number of histories")
@@ -1114,6 +1149,8 @@ func main() {
 			vx.Die("%v", err)
 		}
 		return
+	case "errs":
+		errsCmd(r, cf, st, *n, *casePath)
 	case "win":
 		st.Rule = winRule
 		if *casePath != "" {
